@@ -286,6 +286,12 @@ class ServerNode:
         self.protocols.append(p)
         return len(self.protocols) - 1
 
+    def close(self, c):
+        """connectionLost on connection c (the host closed it)"""
+        from twisted.internet.error import ConnectionDone
+        from twisted.python.failure import Failure
+        self.protocols[c].connectionLost(Failure(ConnectionDone()))
+
     def data(self, c, chunk):
         """one dataReceived call; returns (frames handled during the call, buf afterwards, raised?)"""
         n0 = len(self.log)
@@ -322,7 +328,8 @@ def server_case(chunks, obs):
 
 
 def node_case(ops, node):
-    cops = clist(["Open" if o[0] == "open" else "Data %s %s" % (cnat(o[1]), cbytes(o[2])) for o in ops])
+    cops = clist(["Open" if o[0] == "open" else ("Close %s" % cnat(o[1])) if o[0] == "close" else "Data %s %s" % (cnat(o[1]), cbytes(o[2]))
+                  for o in ops])
     return "CNode %s %s %s %s" % (
         cops, clist([cbytes(b) for b in node.bufs()]),
         clist(["(%s, %s)" % (cnat(c), cbytes(w)) for c, w in node.writes]),
